@@ -6,11 +6,21 @@ PRES = ["--no-show-locs", "--show-bytes", "--show-bits", "--show-hex", "--show-d
         "--no-corpus-path", "--no-architecture"]
 
 
+def entry_key(n):
+    """what identifies a listed interface in an entry that carries no generated name (a C++ member function): the quoted declaration; the source
+    location, the `{linkage name}` suffix and the rest of the sentence are presentation, which the options under test change by design"""
+    m = re.match(r"^'([^']*)'", n)
+    if m:
+        return m.group(1)
+    n = re.sub(r"\s*\{[^{}]*\}\s*$", "", n)
+    return re.sub(r"\s+at \S+:\d+:\d+.*$", "", n).strip()
+
+
 def verdict_names(rep):
     out = []
     for sec in ("removed_fns", "added_fns", "changed_fns", "removed_vars", "added_vars", "changed_vars", "removed_fsyms", "added_fsyms", "removed_vsyms", "added_vsyms"):
         # an entry without a generated name (a C++ member function) is kept as printed, minus the `{linkage name}` suffix that --no-linkage-name removes by design
-        out += ["%s:%s" % (sec, re.sub(r"\s*\{[^{}]*\}\s*$", "", n).strip()) for n in rep["names"].get(sec, [])]
+        out += ["%s:%s" % (sec, entry_key(n)) for n in rep["names"].get(sec, [])]
     return sorted(set(out))
 
 
